@@ -165,6 +165,8 @@ var c04Sources = []string{
 	"Patient.name.given.exclude('Ann')", "iif(Patient.active, 'a', 'b')", "Patient.active and Patient.deceased.not()", "Patient.gender", "Patient.managingOrganization.reference", "Patient.extension.value", "Patient.meta.lastUpdated",
 	"%fint + %fpos", "%names.family", "%multi.where($this > 1).select($this * 2)", "%context.id", "Patient.name.tail().family", "Patient.name.skip(1).take(1)", "Patient.name[0].given[0].length()",
 	"Patient.nap().name.count()", "%pat.name.given.first()", "Patient.contained.id", "Patient.identifier.where(system.exists()).value", "'x'.matches('^x$')", "5.toQuantity()", "Patient.name.given.first().toChars()", "1 / 0", "Patient.nosuchfield",
+	// inexact quotients before and after a division whose operands have more than 16 fraction digits
+	"1.0 / 3", "2 / 3", "1.00000000000000000001 / 3", "0.1234567890123456789012345 / 7.0", "(1.0 / 3) + (2 / 3)",
 	// elements that carry no precision: conversion must not write into the shared message
 	"%fdtnp.toString()", "%fdnp.toString()", "%ftnp.toString()", "%fdtnp = %fdtnp", "Patient.birthDate.toString()", "Patient.deceased.toString()", "Patient.meta.lastUpdated.toString()",
 }
